@@ -87,8 +87,15 @@ const GUARD_BYTE: u8 = 0xc5;
 struct Buf {
     raw: *mut u8,
     size: usize,
+    /// a window into a larger arena (no guards of its own; the neighbouring bytes belong to the other buffers)
+    view_of: Option<std::rc::Rc<Buf>>,
 }
 impl Buf {
+    /// `size` bytes at offset `off` of `arena`
+    fn view(arena: &std::rc::Rc<Buf>, off: usize, size: usize) -> Self {
+        assert!(off + size <= arena.size);
+        Buf { raw: unsafe { arena.ptr().add(off) }, size, view_of: Some(arena.clone()) }
+    }
     fn new(size: usize) -> Self {
         let layout = Layout::from_size_align(size + 2 * GUARD, 64).unwrap();
         let raw = unsafe { alloc_zeroed(layout) };
@@ -97,7 +104,7 @@ impl Buf {
             std::ptr::write_bytes(raw, GUARD_BYTE, GUARD);
             std::ptr::write_bytes(raw.add(GUARD + size), GUARD_BYTE, GUARD);
         }
-        Buf { raw, size }
+        Buf { raw, size, view_of: None }
     }
     /// A buffer with arbitrary non-zero previous content: `LLFree::new` with FreeAll / AllocAll (and the tree
     /// array in every mode but None) must initialise every word itself and not rely on zeroed memory.
@@ -110,6 +117,9 @@ impl Buf {
         b
     }
     fn ptr(&self) -> *mut u8 {
+        if self.view_of.is_some() {
+            return self.raw;
+        }
         unsafe { self.raw.add(GUARD) }
     }
     /// The slice handed to the allocator (it keeps it for 'static; we keep the raw pointer)
@@ -122,6 +132,9 @@ impl Buf {
         b
     }
     fn guards_ok(&self) -> bool {
+        if let Some(a) = &self.view_of {
+            return a.guards_ok();
+        }
         unsafe {
             (0..GUARD).all(|i| self.raw.add(i).read_volatile() == GUARD_BYTE)
                 && (0..GUARD).all(|i| self.raw.add(GUARD + self.size + i).read_volatile() == GUARD_BYTE)
@@ -142,6 +155,9 @@ impl Buf {
 }
 impl Drop for Buf {
     fn drop(&mut self) {
+        if self.view_of.is_some() {
+            return;
+        }
         let layout = Layout::from_size_align(self.size + 2 * GUARD, 64).unwrap();
         unsafe { dealloc(self.raw, layout) };
     }
@@ -189,23 +205,27 @@ struct Cfg {
     default: u8,
     pol: Pol,
     classes: Vec<(u8, usize)>,
+    /// the three metadata buffers are carved back to back (local | trees | lower) out of one arena of exactly the
+    /// requested sizes: an undersized region then overwrites its neighbour instead of a guard
+    packed: bool,
 }
 impl Cfg {
     fn line(&self) -> String {
         let cl: Vec<String> = self.classes.iter().map(|(c, n)| format!("{c}:{n}")).collect();
         format!(
-            "CFG huge_order={} tree_huge={} frames={} init={} default={} policy={} classes={}",
+            "CFG huge_order={} tree_huge={} frames={} init={} default={} policy={} classes={}{}",
             HUGE_ORDER,
             TREE_HUGE,
             self.frames,
             if self.alloc_all { "alloc" } else { "free" },
             self.default,
             self.pol.name(),
-            cl.join(",")
+            cl.join(","),
+            if self.packed { " packed=1" } else { "" }
         )
     }
     fn parse(line: &str) -> Cfg {
-        let mut c = Cfg { frames: 0, alloc_all: false, default: 0, pol: Pol::Simple, classes: vec![] };
+        let mut c = Cfg { frames: 0, alloc_all: false, default: 0, pol: Pol::Simple, classes: vec![], packed: false };
         for kv in line.split_whitespace().skip(1) {
             let (k, v) = kv.split_once('=').expect("CFG key=value");
             match k {
@@ -214,6 +234,7 @@ impl Cfg {
                 "frames" => c.frames = v.parse().unwrap(),
                 "init" => c.alloc_all = v == "alloc",
                 "default" => c.default = v.parse().unwrap(),
+                "packed" => c.packed = v == "1",
                 "policy" => c.pol = Pol::parse(v),
                 "classes" => {
                     c.classes = v
@@ -258,15 +279,21 @@ fn meta_of(lower: &Buf, trees: &Buf, local: &Buf) -> MetaData<'static> {
     MetaData { local: local.slice(), trees: trees.slice(), lower: lower.slice() }
 }
 
-/// Layout assumptions of the dump, checked against the crate's own size computation
-fn check_layout(cfg: &Cfg) {
+/// Layout assumptions of the dump, checked against the crate's own size computation; a discrepancy is reported in
+/// the transcript (`LAYOUT` line: the history cannot run, its buffers would be laid out differently from the dump)
+fn check_layout(cfg: &Cfg) -> Option<String> {
     let ms = LLFree::metadata_size(&cfg.classing(), cfg.frames);
     let nbf = cfg.frames.div_ceil(HUGE_FRAMES);
     let ntab = cfg.frames.div_ceil(TREE_FRAMES);
-    assert_eq!(ms.lower, nbf * BF_BYTES + ntab * TABLE_BYTES, "lower buffer layout");
-    assert_eq!(ms.trees, (ntab * 4).next_multiple_of(64), "trees buffer layout");
     let nslots: usize = cfg.classes.iter().map(|(_, n)| *n).sum();
-    assert_eq!(ms.local, nslots * 64, "local buffer layout");
+    let want = (nslots * 64, (ntab * 4).next_multiple_of(64), nbf * BF_BYTES + ntab * TABLE_BYTES);
+    if (ms.local, ms.trees, ms.lower) != want {
+        return Some(format!(
+            "metadata_size(frames={}) = local {} trees {} lower {}, the layout of {} bitfields, {} tables, {} tree entries, {} slots needs local {} trees {} lower {}",
+            cfg.frames, ms.local, ms.trees, ms.lower, nbf, ntab, ntab, nslots, want.0, want.1, want.2
+        ));
+    }
+    None
 }
 
 impl Inst {
@@ -275,6 +302,16 @@ impl Inst {
         let classing = cfg.classing();
         let ms = LLFree::metadata_size(&classing, cfg.frames);
         // the lower and trees buffers start with garbage (the local buffer must be zeroed: Locals::new relies on it)
+        // (an empty region that starts where its neighbour starts is rejected by MetaData::valid's overlap test - a
+        // conservative quirk that Meta.v models and `zonerun valid` exercises; the packed layout is used without empty regions)
+        if cfg.packed && ms.local > 0 && cfg.frames > 0 {
+            let arena = std::rc::Rc::new(Buf::dirty(ms.local + ms.trees + ms.lower, 0x5b));
+            unsafe { std::ptr::write_bytes(arena.ptr(), 0, ms.local) };
+            let local = Buf::view(&arena, 0, ms.local);
+            let trees = Buf::view(&arena, ms.local, ms.trees);
+            let lower = Buf::view(&arena, ms.local + ms.trees, ms.lower);
+            return Self::over(cfg, init, lower, trees, local);
+        }
         let (lower, trees, local) = (Buf::dirty(ms.lower, 0x5b), Buf::dirty(ms.trees, 0xa7), Buf::new(ms.local));
         Self::over(cfg, init, lower, trees, local)
     }
@@ -604,9 +641,12 @@ struct World<'w> {
 impl<'w> World<'w> {
     /// Writes `H`, `CFG`, `INIT`, the first `ST`
     fn start(w: &'w mut dyn Write, id: u64, suite: &str, seed: u64, cfg: Cfg) -> World<'w> {
-        check_layout(&cfg);
+        let layout = check_layout(&cfg);
         writeln!(w, "H {id} suite={suite} seed={seed}").unwrap();
         writeln!(w, "{}", cfg.line()).unwrap();
+        if let Some(msg) = &layout {
+            writeln!(w, "LAYOUT 0 {msg}").unwrap();
+        }
         let init = if cfg.alloc_all { Init::AllocAll } else { Init::FreeAll };
         let mut world = World {
             w,
@@ -624,6 +664,10 @@ impl<'w> World<'w> {
             nops: 0,
             cfg,
         };
+        if layout.is_some() {
+            world.dead = true;
+            return world;
+        }
         match Inst::create(&world.cfg, init) {
             Ok(Ok(inst)) => {
                 writeln!(world.w, "INIT => ok").unwrap();
@@ -1195,7 +1239,7 @@ fn pick_classing(rng: &mut Rng, allow_custom: bool) -> (Pol, Vec<(u8, usize)>, u
 
 fn pick_cfg(rng: &mut Rng, max_trees: usize, allow_custom: bool) -> Cfg {
     let (pol, classes, default) = pick_classing(rng, allow_custom);
-    Cfg { frames: pick_frames(rng, max_trees), alloc_all: rng.chance(1, 4), default, pol, classes }
+    Cfg { frames: pick_frames(rng, max_trees), alloc_all: rng.chance(1, 4), default, pol, classes, packed: rng.chance(1, 4) }
 }
 
 // ------------------------------------------------------------------------------------------ suites
@@ -1392,10 +1436,10 @@ const NSYM: usize = 15;
 
 fn exhaustive_cfg(k: usize) -> Cfg {
     match k % 4 {
-        0 => Cfg { frames: TREE_FRAMES + HUGE_FRAMES + 65, alloc_all: false, default: 1, pol: Pol::Simple, classes: vec![(0, 1), (1, 1)] },
-        1 => Cfg { frames: 2 * TREE_FRAMES, alloc_all: false, default: 1, pol: Pol::Zeroed, classes: vec![(0, 1), (1, 1), (2, 1)] },
-        2 => Cfg { frames: TREE_FRAMES + 70, alloc_all: true, default: 2, pol: Pol::Movable, classes: vec![(0, 1), (1, 1), (2, 1)] },
-        _ => Cfg { frames: 3 * TREE_FRAMES, alloc_all: false, default: 1, pol: Pol::Zeroslot, classes: vec![(0, 1), (1, 0)] },
+        0 => Cfg { frames: TREE_FRAMES + HUGE_FRAMES + 65, alloc_all: false, default: 1, pol: Pol::Simple, classes: vec![(0, 1), (1, 1)], packed: false },
+        1 => Cfg { frames: 2 * TREE_FRAMES, alloc_all: false, default: 1, pol: Pol::Zeroed, classes: vec![(0, 1), (1, 1), (2, 1)], packed: false },
+        2 => Cfg { frames: TREE_FRAMES + 70, alloc_all: true, default: 2, pol: Pol::Movable, classes: vec![(0, 1), (1, 1), (2, 1)], packed: false },
+        _ => Cfg { frames: 3 * TREE_FRAMES, alloc_all: false, default: 1, pol: Pol::Zeroslot, classes: vec![(0, 1), (1, 0)], packed: false },
     }
 }
 
@@ -1530,7 +1574,7 @@ fn init_counts(from: usize, to: usize, step: usize) -> Vec<usize> {
 
 fn suite_init_one(w: &mut dyn Write, rng: &mut Rng, id: u64, seed: u64, frames: usize, alloc_all: bool) -> u64 {
     let (pol, classes, default) = pick_classing(rng, false);
-    let cfg = Cfg { frames, alloc_all, default, pol, classes };
+    let cfg = Cfg { frames, alloc_all, default, pol, classes, packed: rng.chance(1, 2) };
     let mut wd = World::start(w, id, "init", seed, cfg);
     if wd.dead {
         return wd.finish(id);
@@ -1581,7 +1625,7 @@ fn suite_pattern_one(w: &mut dyn Write, rng: &mut Rng, id: u64, seed: u64) -> u6
         2 => rng.range(HUGE_FRAMES.min(TREE_FRAMES - 1), TREE_FRAMES) + 1,
         _ => 2 * TREE_FRAMES,
     };
-    let cfg = Cfg { frames, alloc_all: false, default: 1, pol: Pol::Simple, classes: vec![(0, 1), (1, 1)] };
+    let cfg = Cfg { frames, alloc_all: false, default: 1, pol: Pol::Simple, classes: vec![(0, 1), (1, 1)], packed: false };
     let mut wd = World::start(w, id, "pattern", seed, cfg);
     if wd.dead {
         return wd.finish(id);
@@ -1673,7 +1717,7 @@ fn suite_pattern_one(w: &mut dyn Write, rng: &mut Rng, id: u64, seed: u64) -> u6
 fn suite_exhaust_one(w: &mut dyn Write, rng: &mut Rng, id: u64, seed: u64) -> u64 {
     let trees = rng.range(2, 5);
     let frames = if rng.chance(1, 3) { trees * TREE_FRAMES } else { (trees - 1) * TREE_FRAMES + rng.range(1, TREE_FRAMES + 1) };
-    let cfg = Cfg { frames, alloc_all: false, default: 0, pol: Pol::Simple, classes: vec![(0, 1)] };
+    let cfg = Cfg { frames, alloc_all: false, default: 0, pol: Pol::Simple, classes: vec![(0, 1)], packed: false };
     let mut wd = World::start(w, id, "exhaust", seed, cfg);
     if wd.dead {
         return wd.finish(id);
